@@ -542,6 +542,10 @@ func runProgram(p *program, enc *json.Encoder) {
 	m.observe(reset, m.names)
 	enc.Encode(reset)
 	for _, s := range p.Steps {
+		if s["op"] == "Par" {
+			m.runPar(s, enc)
+			continue
+		}
 		ev := M{}
 		for k, v := range s {
 			ev[k] = v
@@ -563,6 +567,8 @@ func named(s M) []string {
 	}
 	return n
 }
+
+func obsOf(x *decimal.Decimal) obs.Obs { return obs.Of(x) }
 
 func (m *machine) observe(ev M, full []string) {
 	post := M{}
